@@ -1,4 +1,5 @@
 import ParsecVerif.Proofs.DataflowLive
+import ParsecVerif.Proofs.DataflowAgain
 /-!
 # Theorems about the abstract runtime (generic dataflow machine)
 
@@ -100,6 +101,48 @@ theorem values_schedule_independent (hwf : WF g rank) (ag1 ag2 : List Nat) (ts1 
     have hlt : rank p < rank i := hwf.2 (p, i) hpe
     have := ih (rank p) (by rw [← hr]; exact hlt) p rfl (hwf.1 (p, i) hpe).1
     rw [this]
+
+theorem inv2_run (hwf : WF g rank) (again : List Nat) (ts : List Tr) : Inv2 again (run g F again ts) := by
+  have key : ∀ (ts : List Tr) (s : St), Inv g F s → Inv2 again s →
+      Inv g F (ts.foldl (step g F) s) ∧ Inv2 again (ts.foldl (step g F) s) := by
+    intro ts
+    induction ts with
+    | nil => intro s h1 h2; exact ⟨h1, h2⟩
+    | cons t ts ih =>
+      intro s h1 h2
+      exact ih _ (inv_step hwf s h1 t)
+        (inv2_step g F again s h2 (fun a b hen => release_target_waiting hwf h1 a b hen) t)
+  exact (key ts _ (inv_init g F again rank hwf) (inv2_init g again)).2
+
+/-- **AGAIN re-execution (C16).**  A node whose body answers AGAIN `k` times is started exactly
+    `k + 1` times in every complete run, completes once (so its successors are released once, after
+    the final DONE), and at every moment `#starts = #AGAIN answers + [running or ended]`. -/
+theorem again_reexecutes (hwf : WF g rank) (again : List Nat) (ts : List Tr)
+    (hq : quiescent (run g F again ts)) (i : Nat) (hi : i < g.n) :
+    (run g F again ts).log.count (.start i) = (again[i]?).getD 0 + 1 ∧
+    (run g F again ts).log.count (.end_ i) = 1 := by
+  have h := inv_run (F := F) hwf again ts
+  have h2 := inv2_run (F := F) hwf again ts
+  have hlen : i < (run g F again ts).status.length := h.len ▸ hi
+  have hend : (run g F again ts).status[i]? = some .ended := by
+    rw [List.getElem?_eq_getElem hlen]; congr 1; exact hq.2 _ (List.getElem_mem hlen)
+  refine ⟨?_, quiescent_all_once hwf again ts hq i hi⟩
+  have hs := h2.starts i
+  have hb := h2.budget i
+  have hz := h2.zero i hend
+  rw [hend] at hs
+  simp only [active] at hs
+  simp at hs
+  omega
+
+/-- never more starts than the AGAIN answers allow, at any moment of any run -/
+theorem starts_bounded (hwf : WF g rank) (again : List Nat) (ts : List Tr) (i : Nat) :
+    (run g F again ts).log.count (.start i) ≤ (again[i]?).getD 0 + 1 := by
+  have h2 := inv2_run (F := F) hwf again ts
+  have hs := h2.starts i
+  have hb := h2.budget i
+  have : active (run g F again ts).status[i]? ≤ 1 := by unfold active; split <;> omega
+  omega
 
 /-! Non-vacuity: a diamond 0 → {1,2} → 3 with a duplicated dependency 0 → 1, node 2 answering AGAIN
     once; two different complete schedules. -/
